@@ -475,25 +475,31 @@ pub fn array_reduce(
         (first, 1)
     };
 
+    // The accumulator may be a fresh object returned by the callback: keep the guard of
+    // the latest one alive across iterations and hand it to the caller.
+    let mut acc_guard = interp.guard_value(&accumulator);
+
     for i in start_index..length {
         if has_array_like_element(&arr, i) {
             let elem = get_array_like_element(&arr, i);
 
             let Guarded {
                 value: acc,
-                guard: _acc_guard,
+                guard: new_guard,
             } = interp.call_function(
                 callback.clone(),
                 JsValue::Undefined,
                 &[accumulator, elem, JsValue::Number(i as f64), this.clone()],
             )?;
             accumulator = acc;
+            acc_guard = new_guard.or_else(|| interp.guard_value(&accumulator));
         }
     }
 
-    // Accumulator is a derived value - no guard needed as it's either a primitive
-    // or an object from the array/callback which is already owned
-    Ok(Guarded::unguarded(accumulator))
+    Ok(Guarded {
+        value: accumulator,
+        guard: acc_guard,
+    })
 }
 
 pub fn array_find(
